@@ -160,7 +160,7 @@ func (s *Server) Run(addr string, opt ...Option) error {
 	}
 	s.mu.Lock()
 	s.listener, err = net.Listen("tcp", addr)
-	s.listenerReady = true
+	s.listenerReady = err == nil // only ready when we're really listening
 	s.mu.Unlock()
 	if err != nil {
 		return fmt.Errorf("%s: unable to listen to addr %s: %w", op, addr, err)
